@@ -55,6 +55,10 @@ Theorem C08_cells_on_screen_never_change : forall wid is_comb nfc (a : astate) (
   a_mode a' = a_mode a /\ a_margins a' = a_margins a /\ a_tabs a' = a_tabs a /\ a_dirty a' = a_dirty a /\ a_sp a' = a_sp a.
 Proof. exact c08_frame. Qed.
 (* the current source's tables ARE the documented ones (regenerated and re-checked by the kernel on every run) *)
+(* several ordinary codes in one sequence = the same codes one sequence at a time *)
+Theorem C08_list_equals_one_at_a_time : forall d l1 a l2, Forall (fun p => p <> 38 /\ p <> 48) l1 ->
+  sgr_spec d a (l1 ++ l2) = sgr_spec d (sgr_spec d a l1) l2.
+Proof. exact sgr_app_ordinary. Qed.
 Theorem C08_tables_of_the_source : GenTables.g_palette = map palette (range 0 256) /\ GenTables.g_fg_ansi = fg_ansi /\
   GenTables.g_bg_ansi = bg_ansi /\ GenTables.g_fg_aixterm = fg_aixterm /\ GenTables.g_bg_aixterm = bg_aixterm.
 Proof. pose proof TablesOk_C08.tables_ok_C08 as H. intuition. Qed.
@@ -69,3 +73,4 @@ Print Assumptions C08_loop_is_fold.
 Print Assumptions C08_documented_codes.
 Print Assumptions C08_unknown_codes_ignored.
 Print Assumptions C08_tables_of_the_source.
+Print Assumptions C08_list_equals_one_at_a_time.
